@@ -147,21 +147,25 @@ Section Row.
     rewrite (nth_indep (map idx row) 0%nat (idx [])) by (rewrite map_length; lia). rewrite map_nth. reflexivity.
   Qed.
 
+  Lemma best_index_in_range : forall b r, In r row -> (best_index r b < length r)%nat.
+  Proof. intros b r Hr. rewrite Forall_forall in Hne. apply (best_index_attains_lemma r b (Hne r Hr)). Qed.
+
+  Lemma csbb_obs : forall b a, obs (fst (csbb_row b row a S)) = map (fun r => best_index r b) row.
+  Proof.
+    intros b a. unfold csbb_row. cbn [fst obs]. rewrite map_map. apply map_ext_in. intros r Hr'.
+    destruct (In_nth _ _ [] Hr') as [o [Ho Eo]]. subst r.
+    assert (Hi : (best_index (nth o row []) b < length (nth o row []))%nat) by (apply best_index_in_range; exact Hr').
+    pose proof (Hidx o _ _ (nth_error_nth' (nth o row []) dummy_entry Hi)) as E.
+    unfold vlist in *. rewrite E. reflexivity.
+  Qed.
+
   Lemma csbb_entry_facts : forall b a, let e := fst (csbb_row b row a S) in
     valid (obs e) /\ repr (vals e) (obs e) /\ act e = a.
   Proof.
     intros b a e.
-    assert (Hbi : forall r, In r row -> (best_index r b < length r)%nat).
-    { intros r Hr. rewrite Forall_forall in Hne. apply (best_index_attains_lemma r b (Hne r Hr)). }
-    destruct (pick_sum_repr (fun r => best_index r b) Hbi) as [Hv Hr].
-    assert (Eobs : obs e = map (fun r => best_index r b) row).
-    { unfold e, csbb_row. cbn [fst obs]. rewrite map_map. apply map_ext_in. intros r Hr'.
-      destruct (In_nth _ _ [] Hr') as [o [Ho Eo]]. subst r.
-      assert (Hi : (best_index (nth o row []) b < length (nth o row []))%nat) by (apply Hbi; exact Hr').
-      pose proof (Hidx o _ _ (nth_error_nth' (nth o row []) dummy_entry Hi)) as E.
-      unfold vlist in *. rewrite E. reflexivity. }
-    rewrite Eobs. split; [exact Hv|]. split; [| reflexivity].
-    unfold e, csbb_row. cbn [fst vals]. exact Hr.
+    destruct (pick_sum_repr (fun r => best_index r b) (best_index_in_range b)) as [Hv Hr].
+    unfold e. rewrite csbb_obs. split; [exact Hv|]. split; [| reflexivity].
+    unfold csbb_row. cbn [fst vals]. exact Hr.
   Qed.
 
   Lemma default_facts : valid (fst (default_item row S)) /\ repr (snd (default_item row S)) (fst (default_item row S)).
